@@ -189,7 +189,8 @@ def run(ctx):
         res = []
         for f in P.fns.values():
             if f.pq == "Oomd::%s::rankForKilling" % cls:
-                res.append((f, P.lambdas_in(f)))
+                # the closures that rank or filter a candidate: they take the cgroup context (helper closures over other types do not)
+                res.append((f, [l_ for l_ in P.lambdas_in(f) if not l_.params or "CgroupContext" in (l_.params[0].get("type") or "")]))
         return res
     # kill_by_io_cost
     for f, ls in rank_lambdas("KillIOCost"):
